@@ -80,7 +80,7 @@ func (c *Ctx) rulePathCacheReset(rule string) {
 // ruleOptionScanAny: session options combine by OR.
 func (c *Ctx) ruleOptionScanAny(rule string) {
 	r := c.R
-	r.Rule(rule, "MarshallingOption lists combine by OR: every read of a boolean field of a *MarshallingOption is used only as a branch condition (an option that sets the flag turns it on; no later option can turn it off again) — decoders append their own internal option to the caller's list, so 'last one wins' would silently drop the session's setting", 3)
+	r.Rule(rule, "MarshallingOption lists combine by OR: no read of a boolean field of a *MarshallingOption is stored into a variable or carried round a loop (it is only branched on, negated, combined by short-circuit, or returned by a per-option predicate): an option that sets the flag turns it on and no later option can turn it off again — decoders append their own internal option to the caller's list, so 'last one wins' would silently drop the session's setting", 3)
 	mo := c.P.NamedType("pkg/packet/bgp", "MarshallingOption")
 	if mo == nil {
 		r.Undec(rule, "-", "anchor:MarshallingOption", "-", "not found")
@@ -107,18 +107,43 @@ func (c *Ctx) ruleOptionScanAny(rule string) {
 				fk := ir.OuterKey(fn)
 				n[fk]++
 				cons := fmt.Sprintf("reads %s #%d", fieldVarOf(fa).Name(), n[fk])
+				// "last one wins" needs the value to be kept across options: a store into a variable or a loop-carried
+				// phi. Branching on it, negating it, short-circuit phis (opt != nil && opt.X) and returning it from a
+				// per-option predicate keep the OR semantics.
 				bad := ""
-				for _, ref := range *u.Referrers() {
-					switch ref.(type) {
-					case *ssa.If:
-					default:
-						bad = fmt.Sprintf("%T", ref)
+				seen := map[ssa.Value]bool{}
+				var follow func(v ssa.Value)
+				follow = func(v ssa.Value) {
+					if seen[v] || v.Referrers() == nil {
+						return
+					}
+					seen[v] = true
+					for _, ref := range *v.Referrers() {
+						switch x := ref.(type) {
+						case *ssa.Store:
+							bad = "stored"
+						case *ssa.Phi:
+							hdr := false
+							for _, p := range x.Block().Preds {
+								if x.Block().Dominates(p) {
+									hdr = true
+								}
+							}
+							if hdr {
+								bad = "carried round the loop"
+							} else {
+								follow(x)
+							}
+						case *ssa.UnOp:
+							follow(x)
+						}
 					}
 				}
+				follow(u)
 				if bad == "" {
 					r.Ok(rule, fk, cons, c.P.InstrPos(u), "only tested")
 				} else {
-					r.Bad(rule, fk, cons, c.P.InstrPos(u), "the option's value is copied ("+bad+") instead of only being tested: a later option in the list overrides an earlier one")
+					r.Bad(rule, fk, cons, c.P.InstrPos(u), "the option's value is "+bad+" instead of only being tested: a later option in the list overrides an earlier one")
 				}
 			}
 		}
@@ -197,9 +222,12 @@ func (c *Ctx) ruleHoldResetOnlyOnLiveness(rule string) {
 	}
 	fk := ir.FuncKey(fn)
 	var resetCh *ssa.Parameter
+	// the channel parameter (by type, not by name)
 	for _, p := range fn.Params {
-		if p.Name() == "holdtimerResetCh" {
-			resetCh = p
+		if ch, isChan := p.Type().Underlying().(*types.Chan); isChan {
+			if st, ok := ch.Elem().Underlying().(*types.Struct); ok && st.NumFields() == 0 {
+				resetCh = p
+			}
 		}
 	}
 	if resetCh == nil {
@@ -612,10 +640,11 @@ func (c *Ctx) ruleNextHopValidity(rule string) {
 		return
 	}
 	fk := ir.FuncKey(fn)
-	var allowed *ssa.Parameter
+	// the loopback-allowed flag is whichever bool parameter makes the valuations come out (found by role, not by name)
+	var boolParams []*ssa.Parameter
 	for _, p := range fn.Params {
-		if p.Name() == "loopbackNextHopAllowed" {
-			allowed = p
+		if bt, ok := p.Type().Underlying().(*types.Basic); ok && bt.Kind() == types.Bool {
+			boolParams = append(boolParams, p)
 		}
 	}
 	sub := int64(-1)
@@ -653,9 +682,10 @@ func (c *Ctx) ruleNextHopValidity(rule string) {
 			switch {
 			case callee.Name() == "IsLoopback":
 				loop = append(loop, call)
-			case callee.Parent() == fn && hasConst(callee, 0xe0):
+			// the two octet tests: closures of ValidateAttribute or small helpers of the package
+			case c.P.InModule(callee) && len(callee.Blocks) <= 4 && hasConst(callee, 0xe0):
 				de = append(de, call)
-			case callee.Parent() == fn && hasConst(callee, 0xff):
+			case c.P.InModule(callee) && len(callee.Blocks) <= 4 && hasConst(callee, 0xff):
 				zero = append(zero, call)
 			case callee.Name() == "NewMessageErrorWithErrorHandling" || callee.Name() == "NewMessageError":
 				if k, ok := stripConv(call.Call.Args[1]).(*ssa.Const); ok {
@@ -666,29 +696,35 @@ func (c *Ctx) ruleNextHopValidity(rule string) {
 			}
 		}
 	}
-	if allowed == nil || len(loop) != 1 || len(zero) != 1 || len(de) != 1 || target == nil {
-		r.Bad(rule, fk, "NEXT_HOP tests", c.P.Pos(fn.Pos()), fmt.Sprintf("expected the loopback flag, one IsLoopback, one first-octet-zero and one class-D/E test and the invalid-next-hop error; found flag=%v loopback=%d zero=%d classDE=%d error=%v", allowed != nil, len(loop), len(zero), len(de), target != nil))
+	if len(boolParams) == 0 || len(loop) != 1 || len(zero) != 1 || len(de) != 1 || target == nil {
+		r.Bad(rule, fk, "NEXT_HOP tests", c.P.Pos(fn.Pos()), fmt.Sprintf("expected a loopback flag, one IsLoopback, one first-octet-zero and one class-D/E test and the invalid-next-hop error; found flags=%d loopback=%d zero=%d classDE=%d error=%v", len(boolParams), len(loop), len(zero), len(de), target != nil))
 		return
 	}
 	var bad []string
-	for m := 0; m < 16; m++ {
-		L, a, z, d := m&1 != 0, m&2 != 0, m&4 != 0, m&8 != 0
-		reach := reachBool(fn, func(v ssa.Value) (bool, bool) {
-			switch v {
-			case ssa.Value(allowed):
-				return L, true
-			case ssa.Value(loop[0]):
-				return a, true
-			case ssa.Value(zero[0]):
-				return z, true
-			case ssa.Value(de[0]):
-				return d, true
+	for _, allowed := range boolParams {
+		bad = nil
+		for m := 0; m < 16; m++ {
+			L, a, z, d := m&1 != 0, m&2 != 0, m&4 != 0, m&8 != 0
+			reach := reachBool(fn, func(v ssa.Value) (bool, bool) {
+				switch v {
+				case ssa.Value(allowed):
+					return L, true
+				case ssa.Value(loop[0]):
+					return a, true
+				case ssa.Value(zero[0]):
+					return z, true
+				case ssa.Value(de[0]):
+					return d, true
+				}
+				return false, false
+			}, target)
+			want := !L && a || z || d
+			if reach != want {
+				bad = append(bad, fmt.Sprintf("allowed=%v loopback=%v zero=%v classDE=%v → refused=%v, want %v", L, a, z, d, reach, want))
 			}
-			return false, false
-		}, target)
-		want := !L && a || z || d
-		if reach != want {
-			bad = append(bad, fmt.Sprintf("allowed=%v loopback=%v zero=%v classDE=%v → refused=%v, want %v", L, a, z, d, reach, want))
+		}
+		if len(bad) == 0 {
+			break
 		}
 	}
 	if len(bad) == 0 {
@@ -709,13 +745,11 @@ func (c *Ctx) ruleLocalIDStable(rule string) {
 	}
 	fk := ir.FuncKey(fn)
 	var newPath *ssa.Parameter
+	// the *Path parameter (by type, not by name)
 	for _, p := range fn.Params {
-		if p.Name() == "newPath" {
+		if strings.HasSuffix(p.Type().String(), "table.Path") {
 			newPath = p
 		}
-	}
-	if newPath == nil && len(fn.Params) > 0 {
-		newPath = fn.Params[len(fn.Params)-1]
 	}
 	var stores []*ssa.Store
 	walk := func(f *ssa.Function) {
